@@ -8,7 +8,7 @@ NOT_APPLICABLE = {
     "C15": "partition argument runs through IndexMap, iterator chains with closures and f64 equality; thresholds put any Kani bound below the point where the code does anything (DESIGN §4 C15)",
     "C16": "global optimality of a Newton solve of Kepler's equation over transcendental functions: numerical analysis, not a contract (DESIGN §4 C16)",
     "C17": "bit-for-bit and relative-error claims on f64 loops built from iterator chains; Verus has no float theory and the smallest relevant input is beyond bit-precise CBMC (DESIGN §4 C17)",
-    "C18": "not reached yet (bounded Kani stand-in for DriftTable::at planned; nothing proved)",
+    "C18": "not claimed: DriftTable::at is float arithmetic over uom quantities and an iterator scan; Verus leaves the floats uninterpreted, and the only reachable statement was a Kani bound of <=3 table entries (261 s for 2 entries in the design spike) about the index arithmetic -- monotonicity, continuity and the correction range are properties of the shipped numbers, not of the code; the bounded harness was not built",
 }
 
 _COMMON_NOTE = ("Trusted: Verus/Z3, rustc, Kani/CBMC, vstd specs of core/alloc, the extractor's rewrite rules (reported per run in evidence.coverage.rules_fired), "
